@@ -161,3 +161,14 @@ package plumbing
 //gvc:  ensures kind: result != nil ==> is(result, ErrInvalidReferenceName)
 //gvc:  kf F21 accept: exists(i, 0, spec_split_n(d, p, n), spec_split_len(d, p, n, i) == 1 && d[spec_split_off(d, p, n, i)] == '@')
 //gvc:end
+
+// ObjectID.ReadFrom: reads Size() bytes of the stream into the id (trusted:
+// io.ReadFull into the id's array).
+//gvc:func (*ObjectID).ReadFrom
+//gvc:  trusted
+//gvc:  params s r
+//gvc:  results n err
+//gvc:  modifies r.#pos
+//gvc:  ensures read: err == nil ==> r.#pos == old(r.#pos) + n && r.#pos <= r.#n && (n == 20 || n == 32)
+//gvc:  ensures sha1: err == nil && len(s.format) == 0 ==> n == 20
+//gvc:end
